@@ -101,6 +101,35 @@ def strings(alpha, maxlen):
 _MACHINES = {}        # one machine per expression, reused for all inputs (delegate() resets it at the start of every run)
 
 
+_GREENERY = {}
+
+
+def greenery_str(rx):
+    import greenery.lego
+    return str(greenery.lego.parse(rx))
+
+
+def greenery_wrong(rx):
+    """does the third-party regex library's OWN automaton for rx (before cpppo translates it) differ from Python's re on short strings?"""
+    if rx not in _GREENERY:
+        import greenery.lego, re as _re
+        f = greenery.lego.parse(rx).fsm()
+        bad = False
+        for n in range(0, 5):
+            for t in itertools.product('abc', repeat=n):
+                w = ''.join(t)
+                try:
+                    g = f.accepts(w)
+                except KeyError:
+                    g = False
+                if g != bool(_re.fullmatch(rx, w)):
+                    bad = True; break
+            if bad:
+                break
+        _GREENERY[rx] = bad
+    return _GREENERY[rx]
+
+
 def impl_regex(rx, inp, bytes_mode=False, chunks=None):
     """-> ('ok', consumed, stored) | ('nonterminal',) | ('other', name)"""
     import cpppo
@@ -169,6 +198,10 @@ def run(ctx):
     ncases = 0
     nontriv = set()
     sample_rows = []
+    gseen = set()
+    # always exercised: the shapes of the recorded greenery finding
+    res = res + [('opt', ('cat', ('set', False, 'a'), ('plus', ('set', False, 'a')))), ('opt', ('cat', ('plus', ('set', False, 'b')), ('set', False, 'b'))),
+                 ('star', ('cat', ('set', False, 'a'), ('plus', ('set', False, 'a'))))]
     CH = 120
     for c0 in range(0, len(res), CH):
         cases, meta = [], []
@@ -188,9 +221,17 @@ def run(ctx):
             else:
                 mo = ('nonterminal',)
             if io != mo:
+                # the reference is the standard semantics (C11_run): a disagreement is a failing input.  Whose fault?  If the
+                # regex library's own automaton already differs from the standard language, it is the recorded greenery finding
+                if greenery_wrong(rx):
+                    if rx not in gseen:
+                        gseen.add(rx)
+                        ctx.violation(dict(regex=rx, input=s, machine=repr(io), standard_semantics=repr(mo), greenery_reduces_it_to=greenery_str(rx)),
+                                      'regex machine accepts a different language (the regex library reduces the expression wrongly)',
+                                      known_key='C11/greenery-optional-unbounded-repeat')
+                    continue
                 ndis += 1
                 first = first or dict(regex=rx, input=s, impl=repr(io), reference=repr(mo))
-                # the reference is the standard semantics (C11_run): a disagreement is a failing input
                 nbad += 1
                 if nbad <= 3:
                     ctx.violation(dict(regex=rx, input=s, machine=repr(io), standard_semantics=repr(mo)),
